@@ -197,3 +197,27 @@ theorem jump_block_start (ois : List (Nat × Instr)) (blocks : List (List Instr)
   simp only [Option.map_some, Nat.zero_add]
 
 end CDV
+
+namespace CDV
+
+theorem blockStarts_length : ∀ (bl : List (List Instr)) (k : Nat), (blockStarts bl k).length = bl.length := by
+  intro bl
+  induction bl with
+  | nil => intro k; rfl
+  | cons b bs ih => intro k; simp [blockStarts, ih]
+
+/-- the block starts are the positions of the sorted targets, one block per target -/
+theorem blockStarts_eq_targets (ois : List (Nat × Instr)) (blocks : List (List Instr)) (h : buildBlocks ois = .ok blocks)
+    (hso : SortedLt (ois.map (·.1))) (hsub : ∀ t ∈ targetsOf ois, t ∈ ois.map (·.1)) :
+    blockStarts blocks 0 = (targetsOf ois).map (fun t => indexOf t (ois.map (·.1))) ∧ blocks.length = (targetsOf ois).length := by
+  have hs := group_starts (targetsOf ois) ois [] blocks h
+  simp only [unacc, List.reverse_nil, List.map_nil, blockStarts, List.flatten_nil, List.length_nil, List.nil_append] at hs
+  rw [startsPos_eq ois (targetsOf ois) 0 hso (targetsOf_sorted ois) hsub] at hs
+  have hs' : blockStarts blocks 0 = (targetsOf ois).map (fun t => indexOf t (ois.map (·.1))) := by
+    rw [hs]; apply List.map_congr_left; intro t _; omega
+  refine ⟨hs', ?_⟩
+  have := congrArg List.length hs'
+  rw [blockStarts_length, List.length_map] at this
+  exact this
+
+end CDV
